@@ -653,13 +653,18 @@ func (d *decoder) parseDataFields(dm *defmsg, knownMsg bool, msgv reflect.Value)
 		}
 
 		if padding != 0 {
+			psize := pfield.t.BaseType().Size()
 			if dm.arch == le {
-				for j := dsize; j < pfield.t.BaseType().Size(); j++ {
+				for j := dsize; j < psize; j++ {
 					d.tmp[j] = 0x00
 				}
-			} else {
-				for j := 0; j < pfield.t.BaseType().Size(); j++ {
-					d.tmp[j], d.tmp[j+padding] = 0x00, d.tmp[j]
+			} else if pfield.t.Kind() != types.NativeFit {
+				// Time and coordinate kinds read the whole profile
+				// sized slot: right-align the value. Native fields
+				// are read with the definition's own size.
+				copy(d.tmp[padding:psize], d.tmp[:dsize])
+				for j := 0; j < padding; j++ {
+					d.tmp[j] = 0x00
 				}
 			}
 		}
